@@ -758,7 +758,7 @@ def template_agreement(rep):
                  and isinstance(n.targets[0], ast.Name)
                  and re.match(r"^(?:(?:sorted|set|list|tuple|np\.array|np\.unique)\()*"
                               r"kwargs\.get\('it'", rtext(fn, n.value))]
-        if len(binds) != 1:
+        if not binds or len({rtext(fn, b.value) for b in binds}) != 1:
             raise AnalysisError(f"{nm}: the binding of the iterations from kwargs not found")
         norms[nm] = rtext(fn, binds[0].value)
         rep.check(norms[nm].startswith("sorted(set(kwargs.get('it'"), "template-agreement",
@@ -1647,8 +1647,12 @@ def separator_guard(rep):
             elif isinstance(st, ast.Assign) and isinstance(st.value, ast.BinOp) \
                     and isinstance(st.value.op, ast.Add) \
                     and isinstance(st.value.right, ast.Constant) \
-                    and st.value.right.value == "/" \
-                    and unparse(st.targets[0]) == unparse(st.value.left):
+                    and st.value.right.value == "/":
+                sites.append(st)
+            elif isinstance(st, ast.Return) and isinstance(st.value, ast.BinOp) \
+                    and isinstance(st.value.op, ast.Add) \
+                    and isinstance(st.value.right, ast.Constant) \
+                    and st.value.right.value == "/":
                 sites.append(st)
         for st in sites:
             n += 1
@@ -1848,7 +1852,8 @@ def iteration_coverage(rep):
             continue
         v = lp.target.id
         uses = [c for c in ast.walk(lp) if isinstance(c, ast.Compare) and len(c.ops) == 1
-                and isinstance(c.ops[0], ast.Eq) and "['it']" in unparse(c)
+                and isinstance(c.ops[0], ast.Eq)
+                and ("['it']" in unparse(c) or re.search(r"\.it\b", unparse(c)))
                 and any(isinstance(x, ast.Name) and x.id == v for x in ast.walk(c))]
         if not uses:
             continue
